@@ -98,6 +98,8 @@ pub struct Decoded {
     pub chrom_key_size: u32,
     pub chrom_tree_block_size: u32,
     pub chrom_item_count: u64,
+    /// keys of some chromosome-tree node are not in ascending byte order
+    pub chrom_keys_unsorted: bool,
     /// (name, id, size) in leaf order
     pub chroms: Vec<(String, u32, u32)>,
     pub main: Index,
@@ -214,7 +216,8 @@ fn read_index(rd: &Rd, off: u64, what: &str, problems: &mut Vec<String>) -> R<In
         }
         ix.nodes += 1;
         ix.max_node_count = ix.max_node_count.max(count);
-        if count == 0 {
+        // an index over zero items can only be a header plus an empty root leaf
+        if count == 0 && !(depth == 0 && ix.item_count == 0 && is_leaf == 1) {
             problems.push(format!("{}: empty node at {}", what, node));
         }
         if count as u32 > ix.block_size {
@@ -331,6 +334,7 @@ fn read_chrom_node(
     key_size: u32,
     out: &mut Vec<(String, u32, u32)>,
     problems: &mut Vec<String>,
+    unsorted: &mut bool,
     depth: usize,
 ) -> R<()> {
     if depth > 16 {
@@ -345,7 +349,7 @@ fn read_chrom_node(
         let key = rd.sl(item, key_size as usize)?;
         if let Some(p) = &prev_key {
             if p.as_slice() > key {
-                problems.push(format!("chromosome tree node at {}: keys not sorted", node));
+                *unsorted = true;
             }
         }
         prev_key = Some(key.to_vec());
@@ -359,7 +363,7 @@ fn read_chrom_node(
             out.push((name, rd.u32(item + key_size as u64)?, rd.u32(item + key_size as u64 + 4)?));
         } else if is_leaf == 0 {
             let child = rd.u64(item + key_size as u64)?;
-            read_chrom_node(rd, child, key_size, out, problems, depth + 1)?;
+            read_chrom_node(rd, child, key_size, out, problems, unsorted, depth + 1)?;
         } else {
             return Err(format!("chromosome tree node at {} has isLeaf={}", node, is_leaf));
         }
@@ -495,12 +499,14 @@ pub fn decode(bytes: &[u8]) -> Result<Decoded, String> {
         problems.push(format!("chromosome tree valSize {} != 8", val_size));
     }
     let mut chroms = vec![];
+    let mut chrom_keys_unsorted = false;
     read_chrom_node(
         &rd,
         chrom_tree_offset + 32,
         chrom_key_size,
         &mut chroms,
         &mut problems,
+        &mut chrom_keys_unsorted,
         0,
     )?;
     if chroms.len() as u64 != chrom_item_count {
@@ -550,6 +556,7 @@ pub fn decode(bytes: &[u8]) -> Result<Decoded, String> {
         chrom_key_size,
         chrom_tree_block_size,
         chrom_item_count,
+        chrom_keys_unsorted,
         chroms,
         main: Index::default(),
         wig_sections: vec![],
@@ -750,7 +757,7 @@ pub fn decode(bytes: &[u8]) -> Result<Decoded, String> {
             ));
         }
         prev_red = reduction;
-        if !(data_offset < index_offset && index_offset < n) || data_offset < full_index_offset {
+        if !(data_offset <= index_offset && index_offset < n) || data_offset < full_index_offset {
             problems.push(format!(
                 "zoom level {}: offsets data {} index {} inconsistent",
                 z, data_offset, index_offset
